@@ -61,7 +61,7 @@ chk("C18", "model_checking",
     "explicit-state enumeration of replayed block histories on the real app, export -> fresh-app InitChain -> twin comparison (store diff + module queries + EVM view calls + re-export)",
     "DESIGN.md §5 C18", "seqx-replay")
 
-chk("C19", "exploration",
+chk("C19", "model_checking",
     "Exhaustive products over listed finite domains on the real crypto, hd and eip712 packages: 7 (thorough 15) keys x 8 messages x 3 signature forms full verification matrix (true exactly for the signing key and the signed message or its EIP-712 rendering); all signature, public-key and sign-document single-bit flips; address and 11 codecs per key; 287 (4 538) derivations against an independent BIP-32 implementation and published vectors; 900 (1 232) sign documents = 7 base txs x 2 encodings x every single-field perturbation: pairwise-distinct EIP-712 digests and 121 560 (1 750 280) cross-document signature checks; staking-precompile typed messages, all pairs. Verification and rendering of arbitrary bytes must return a verdict, never panic.",
     "Decides that the code binds key, message and every listed field within the alphabet; says nothing about the 2^256-key cryptographic claim. The 32-byte-digest behaviour of Sign and the ignored V byte are modelled as documented. Fee payer, granter, tip, public key and sign mode are probed informationally only.",
     "bounded exhaustive enumeration (grid / product) with independent reference oracles (own Keccak, go-ethereum curve arithmetic, cosmos-sdk hd, embedded vectors)",
@@ -74,25 +74,25 @@ chk("C20", "model_checking", C20_TEXT_AD + C20_TEXT_E,
     "stateless model checking (controlled cooperative scheduler over instrumented real code, deviation-bounded DFS of schedules, vector-clock race detection) + exhaustive bounded input enumeration through all ABCI phases with twin-block isolation oracle",
     "DESIGN.md §3.4, §5 C20, §10", "schedx")
 
-chk("C15", "exploration",
+chk("C15", "model_checking",
     "Exhaustive product program x account kind x vesting end time x clock placement on the real app: 49 (thorough 77) target accounts per world (module accounts, base accounts, contract, the four vesting kinds as zero-balance zero-sequence and as funded multi-denom accounts with end times around the block time) x 19 (40) programs (plain tx / CALL / STATICCALL / BALANCE / EXTCODE* / value transfer / SELFDESTRUCT beneficiary / the account as sender spending into locked coins, through FinalizeBlock on a fresh app; CreateAccount / DestroyAccount / Suicide / SubBalance at StateDB level on CacheContext branches) in two worlds whose block time lies before (2001) and after (2100) any plausible wall clock. After every case all auth accounts, balances of every denom, code hash and storage are compared with the pre-state: protected accounts survive with the same type and locked coins unless the tx fails as a whole, only empty or self-destructed accounts disappear, deleted accounts leave nothing behind, and the vesting cut-off follows block time.",
     "Exhaustive over the stated finite alphabet. The oracle uses block time only; the wall clock is read only to label findings of the (fixed) wall-clock defect. Locked amounts are taken from the SDK's LockedCoins(blockTime). Permanently locked accounts count as never-ending vesting.",
     "exhaustive product of programs x account kinds x times on the real app (FinalizeBlock and StateDB API on branch states) with full pre/post account observation",
     "DESIGN.md §5 C15", "grid")
 
-chk("C12", "exploration",
+chk("C12", "model_checking",
     "Exhaustive enumeration of every call chain E->F0->...->precompile with op[i] in {CALL, DELEGATECALL, CALLCODE, STATICCALL}^L, L = 0..3 (thorough 0..6), through generic forwarder contracts (bubbling and swallowing) x every method of every custom precompiled contract read from the live registry (49 methods: 2 ERC-20, staking, bech32) x 1-3 argument lists per method and caller (EIP-712 messages signed by the calling frame's key), each executed by the real NewStateDB + NewEVM + evm.Call + CommitMultiStore on a branch of one state prepared by real blocks (delegations by signed txs, rewards from distributed fees). A sequence containing a STATICCALL must leave the dump of all stores unchanged and emit no log; its STATICCALL-free twin is the normal-context reference (succeeds, a writer changes state, a ReadOnly() method changes nothing). Per writer: RequireGas() > 0, under-funded calls fail without effect, a funded call consumes gas. Three programs are repeated as signed transactions in a committed block and must agree with the keeper-level result.",
     "One prepared initial state and call value 0 everywhere; keeper-level driving (no ante handler/fees) cross-checked by three ABCI-level transactions; state comparison ignores the auth global account number and account-number-only differences; argument lists are representatives, not all arguments; depth-major enumeration with a time budget that can only lower chain_length_completed / set exhaustive=false.",
     "bounded-exhaustive program enumeration (call-opcode sequences x registry methods) with twin-run differential oracle on full store dumps, defect-aware classification, process-sharded",
     "DESIGN.md §5 C12", "seqx-branch")
 
-chk("C02", "exploration",
+chk("C02", "model_checking",
     "Differential exhaustive enumeration against go-ethereum's own state transition: every (pre-state, frame-tree program, transaction) of a bounded grammar (SSTORE/SLOAD/LOG, the four call opcodes to child / self / EOA / 0x0 / fresh / ecrecover with value and gas variants, CREATE/CREATE2 of four init codes, SELFDESTRUCT, REVERT/INVALID/RETURN, BALANCE/EXTCODE*, gas burner; trees of depth 2 (thorough 3); 5 tx forms x 4 gas limits x value x call/creation; every program also as second message after 13 prefixes) is executed by the real Keeper.ApplyMessageWithConfig(commit) on a branch of the app state and by core.ApplyMessage over go-ethereum's core/state with the same block context, chain config and message. Compared: error class, return data, gas used, logs, and existence/nonce/balance/code/storage of every account (universe, anything else in evermint's stores, every possible CREATE/CREATE2 address). A subset also runs through complete FinalizeBlock with non-zero prices. 148 932 (thorough 1 117 358) differential pairs.",
     "Both sides share the interpreter of the forked go-ethereum (core/vm), so opcode semantics that live only there are not under test. Keeper passes use zero prices; the two insufficient-funds sentinels are one class (buyGas disabled). Storage is compared as a total map; evermint leaves zero-valued slot entries. Coinbase, fee collector and the x/evm module account are not compared. The 'no custom precompile' control world is synthetic, since genesis always deploys bech32.",
     "exhaustive bounded enumeration of programs x transactions x pre-states on the real keeper / real app, differential oracle = go-ethereum reference transition, defect-aware classification by an emulated reference",
     "DESIGN.md §3.6, §5 C02", "gethref")
 
-chk("C07", "exploration",
+chk("C07", "model_checking",
     "Exhaustive enumeration of a bounded product of transaction shapes on the real application: message lists of length <= 3 over {MsgEthereumTx legacy/dynamic-fee, bank send, the three vesting-creation messages, MsgGrant of a generic authorisation for each disabled type and for bank send, MsgExec nested to depth 5 (narrow and with a sibling message at every level) around each of them} x the Ethereum envelope factors (extension options, signature, signer info, fee payer, fee granter, memo, timeout height, declared fee, declared gas limit; full product in thorough, all single and pairwise deviations in quick). Each shape is hand-assembled as protobuf and run in Simulate, CheckTx, ReCheck and FinalizeBlock on a fresh app. An independent reference predicate transcribed from the property decides which shapes must be refused in every mode; delivered transactions must show exactly their lane's events; refused transactions must leave all stores but the fee market's equal to an empty-block twin. 4 321 (78 440) shapes, 13 157 (235 793) mode executions.",
     "No state dedupe: exhaustive means the stated finite product was enumerated completely. Only refusals are demanded (plus sanity shapes); top-level vesting creation belongs to C16; ReCheck only after CheckTx acceptance. Trusts the cosmos-sdk tx decoder, baseapp and authz, and the generated protobuf types used by the reference. Routes other than the ante handler (x/gov proposal execution) are outside this property's sentence and are not judged here (DESIGN.md §10.3).",
     "exhaustive bounded enumeration of hand-built transaction shapes x 4 ABCI modes on fresh apps, independent acceptance predicate + lane-event and twin-state oracles",
